@@ -24,8 +24,20 @@ func scribbleOf(idx int, orig *Pkt) *Pkt {
 	}
 }
 
-func (s *Sim) scribbler(idx int, parkUs int64) mqtt.Handler {
-	return mqtt.HandlerFunc(func(m *mqtt.Message) {
+func (s *Sim) scribbler(idx int, parkUs int64, retain bool) mqtt.Handler {
+	work := s.scribbleWork(idx, parkUs)
+	if retain {
+		// the handler hands its message to a worker of its own and returns
+		return mqtt.HandlerFunc(func(m *mqtt.Message) {
+			s.log(Rec{Kind: "hretain", V: int64(idx), P: msgPkt(m), S: tokenOf(string(m.Payload))})
+			go work(m)
+		})
+	}
+	return mqtt.HandlerFunc(work)
+}
+
+func (s *Sim) scribbleWork(idx int, parkUs int64) func(m *mqtt.Message) {
+	return func(m *mqtt.Message) {
 		entry := msgPkt(m)
 		tok := tokenOf(entry.Pay)
 		s.log(Rec{Kind: "hin", V: int64(idx), P: entry, S: tok})
@@ -52,7 +64,7 @@ func (s *Sim) scribbler(idx int, parkUs int64) mqtt.Handler {
 			runtimeGosched()
 		}
 		s.log(Rec{Kind: "hout", V: int64(idx), P: msgPkt(m), S: tok})
-	})
+	}
 }
 
 func (s *Sim) muxHandler(h int) mqtt.Handler {
@@ -65,7 +77,7 @@ func (s *Sim) muxHandler(h int) mqtt.Handler {
 	s.mu.Unlock()
 	mux := &mqtt.ServeMux{}
 	for i, reg := range s.sc.Cfg.Mux {
-		var hd mqtt.Handler = s.scribbler(i, reg.ParkUs)
+		var hd mqtt.Handler = s.scribbler(i, reg.ParkUs, reg.Retain)
 		if reg.Async {
 			hd = &mqtt.ServeAsync{Handler: hd}
 		}
@@ -87,7 +99,14 @@ func (s *Sim) muxHandler(h int) mqtt.Handler {
 // message, then reuses that message.
 func (s *Sim) muxServe(i int, op *Op) {
 	h := s.muxHandler(1)
-	m := &mqtt.Message{Topic: op.Topic, QoS: mqtt.QoS(op.QoS), Retain: op.Retain, Payload: s.payload(op), ID: op.PresetID}
+	pay := s.payload(op)
+	if op.Repeat > 0 {
+		// a payload built in a reusable buffer: spare capacity behind the data
+		buf := make([]byte, len(pay), len(pay)*op.Repeat+16)
+		copy(buf, pay)
+		pay = buf
+	}
+	m := &mqtt.Message{Topic: op.Topic, QoS: mqtt.QoS(op.QoS), Retain: op.Retain, Payload: pay, ID: op.PresetID}
 	before := msgPkt(m)
 	s.log(Rec{Kind: "caller", Op: i + 1, S: "before", P: before})
 	h.Serve(m)
@@ -111,9 +130,15 @@ func genC20(r *Rng) *Scenario {
 	fs := []string{"a/x", "a/+", "#", "+/x", "a/#", "b", "+"}
 	n := int(r.between(1, 4))
 	for i := 0; i < n; i++ {
-		reg := MuxReg{Filter: fs[r.IntN(len(fs))], Async: r.chance(0.5)}
+		reg := MuxReg{Filter: fs[r.IntN(len(fs))], Async: r.chance(0.4)}
 		if r.chance(0.7) {
 			reg.ParkUs = r.between(1, 400)
+		}
+		if !reg.Async && r.chance(0.3) {
+			reg.Retain = true
+			if reg.ParkUs == 0 {
+				reg.ParkUs = r.between(1, 400)
+			}
 		}
 		cfg.Mux = append(cfg.Mux, reg)
 	}
@@ -132,6 +157,9 @@ func genC20(r *Rng) *Scenario {
 		}
 		if r.chance(0.25) {
 			op := Op{AtUs: t, Actor: 5 + i, Kind: "muxserve", Topic: tps[r.IntN(len(tps))], Token: fmt.Sprintf("dm%d", i), QoS: byte(r.IntN(3)), Retain: r.chance(0.3), PayLen: int(r.between(0, 12)), CtxTimeoutUs: r.between(0, 500)}
+			if r.chance(0.5) {
+				op.Repeat = int(r.between(2, 6)) // capacity factor of the caller's buffer
+			}
 			if op.QoS > 0 {
 				op.PresetID = uint16(r.between(1, 500))
 			}
